@@ -77,6 +77,7 @@ func (v *Verifier) buildQuery(o *Obligation, models bool) (string, []*Term) {
 				continue
 			}
 			for _, t := range v.instantiateLemma(l, scan) {
+				t = skolemizeHyp(t)
 				if !seen[t] {
 					seen[t] = true
 					asserts = append(asserts, t)
@@ -431,4 +432,32 @@ func skolemizeGoal(g *Term) *Term {
 		return skolemizeGoal(Subst(g.Args[0], m))
 	}
 	return g
+}
+
+// skolemizeHyp: a lemma instance (forall k. H(k)) ==> C is equivalent to (exists k. !H(k)) || C; naming the
+// witness by a fresh constant gives H(sk) ==> C, which is equisatisfiable and lets the instantiation passes
+// see ground terms for the hypothesis.
+func skolemizeHyp(t *Term) *Term {
+	if t.Op != "=>" || t.hasB {
+		return t
+	}
+	sk := func(h *Term) *Term {
+		if h.Op != "forall" || h.hasB {
+			return h
+		}
+		m := map[*Term]*Term{}
+		for _, b := range h.Bound {
+			m[b] = Fresh("skh!"+strings.TrimPrefix(b.Name, "b!"), b.S)
+		}
+		return Subst(h.Args[0], m)
+	}
+	h := t.Args[0]
+	if h.Op == "and" {
+		xs := make([]*Term, len(h.Args))
+		for i, a := range h.Args {
+			xs[i] = sk(a)
+		}
+		return Implies(And(xs...), t.Args[1])
+	}
+	return Implies(sk(h), t.Args[1])
 }
